@@ -59,6 +59,8 @@ class TranslatorPython(Translator):
     def from_ExprOp(self, expr):
         if expr.op in self.op_no_translate:
             args = list(map(self.from_expr, expr.args))
+            # Unsigned integer division
+            op = "//" if expr.op == "/" else expr.op
             if len(expr.args) == 1:
                 return "((%s %s) & 0x%x)" % (
                     expr.op,
@@ -67,7 +69,7 @@ class TranslatorPython(Translator):
                 )
             else:
                 return "((%s) & 0x%x)" % (
-                    (" %s " % expr.op).join(args),
+                    (" %s " % op).join(args),
                     (1 << expr.size) - 1
                 )
         elif expr.op == "parity":
